@@ -62,6 +62,7 @@ static int scan_module(struct context_data *ctx, int ep, int chain)
     const struct xmp_event *event;
     int parm, gvol_memory, f1, f2, p1, p2, ord, ord2;
     int row, last_row, break_row, row_count, row_count_total;
+    int end_marker_ord;
     int orders_since_last_valid, any_valid;
     int gvl, bpm, speed, base_time, chn;
     int frame_count;
@@ -159,6 +160,8 @@ static int scan_module(struct context_data *ctx, int ep, int chain)
     start_time = time = 0.0;
     inside_loop = 0;
 
+    end_marker_ord = -1;
+
     while (42) {
 	/* Sanity check to prevent getting stuck due to broken patterns. */
 	if (orders_since_last_valid > 512) {
@@ -168,7 +171,11 @@ static int scan_module(struct context_data *ctx, int ep, int chain)
 	orders_since_last_valid++;
 
 	if ((uint32)++ord >= mod->len) {
-	    if (mod->rst > mod->len || mod->xxo[mod->rst] >= mod->pat) {
+	    /* Same restart rule as next_order() in the player: an end marker
+	     * met below the entry point restarts at the entry point, not at
+	     * the restart position. */
+	    if (mod->rst > mod->len || mod->xxo[mod->rst] >= mod->pat ||
+		(end_marker_ord >= 0 && end_marker_ord < ep)) {
 		ord = ep;
 	    } else {
 		if (libxmp_get_sequence(ctx, mod->rst) == chain) {
@@ -177,6 +184,8 @@ static int scan_module(struct context_data *ctx, int ep, int chain)
 		    ord = ep;
 	        }
 	    }
+
+	    end_marker_ord = -1;
 
 	    pat = mod->xxo[ord];
 	    if (has_marker && pat == S3M_END) {
@@ -200,6 +209,7 @@ static int scan_module(struct context_data *ctx, int ep, int chain)
 	     */
 	    if (pat >= mod->pat) {
 		if (has_marker && pat == S3M_END) {
+			end_marker_ord = ord;
 			ord = mod->len;
 		}
 		continue;
@@ -211,6 +221,7 @@ static int scan_module(struct context_data *ctx, int ep, int chain)
 	/* All invalid patterns skipped, only S3M_END aborts replay */
 	if (pat >= mod->pat) {
 	    if (has_marker && pat == S3M_END) {
+		end_marker_ord = ord;
 		ord = mod->len;
 	        continue;
 	    }
